@@ -8,7 +8,7 @@
    does not listen the model therefore predicts the hang, the observation agrees
    with it, and [pclass] -- the property on the observation -- reports it. *)
 From Coq Require Import ZArith NArith List Bool String.
-From GoCoap Require Import Base.Cases Liveness.Model Liveness.Close Liveness.Stall Liveness.Spec Gen.WakeSets.
+From GoCoap Require Import Base.Cases Liveness.Model Liveness.Close Liveness.Stall Liveness.Table Liveness.Stop Liveness.Spec Gen.WakeSets.
 Import ListNotations.
 Local Open Scope list_scope.
 Open Scope Z_scope.
@@ -44,7 +44,21 @@ Inductive case :=
    ninfl operations in flight and no Close call; sock = the session owns the socket; tr 1 tcp, 2 dtls, 3 udp
    loopback (sock: udp.Dial, otherwise udp.Client over a socket of the caller); o_ctx = connection context
    cancelled; o_late = a call made afterwards returned *)
-| ReaderEnd (tr : Z) (sock : bool) (cause ninfl ncb : Z) (o_cb : list Z) (o_done o_ctx o_ops o_late : bool).
+| ReaderEnd (tr : Z) (sock : bool) (cause ninfl ncb : Z) (o_cb : list Z) (o_done o_ctx o_ops o_late : bool)
+(* nstop concurrent Server.Stop calls on a datagram server with npeers peers (ncb callbacks each) race with the exit
+   path of Serve for the peer table.  who 0: a Stop call takes the table (the Serve goroutine is inside OnNewConn of
+   one more, late, peer while Stop starts) and Serve returns while that call is still working through the table (the
+   first callback that runs waits for it); who 1: Stop is called while Serve reads: either takes the table.  nconn =
+   connections the server handed to OnNewConn in the end (a datagram processed while the server stops adds one);
+   o_cb: how often each of their callbacks ran *)
+| StopRace (who nstop npeers ncb nconn : Z) (o_cb : list Z) (o_done o_closers o_panic o_serve : bool)
+(* the housekeeping (Conn.CheckExpirations with a virtual time) works on the pending message of operation op while
+   the caller waits.  tr 0 in-memory udp, 2 dtls session over a scripted conn, 3 udp.Dial over loopback (through the
+   function registered with the periodic runner); mode 0 one retransmission, 1 retransmissions used up: the message
+   is given up, 2 the deadline of the request's context has passed: given up, 3 as 1 by two goroutines at once while
+   the trigger fires; trig 0 cancel, 1 deadline, 2 local Close, 4 the peer answers (mode 0).  o_tick = every
+   housekeeping call returned; o_late = a call made afterwards returned *)
+| Tick (tr op mode trig : Z) (o_tick o_ret : bool) (o_err : Z) (o_late : bool).
 
 Definition udp_like (tr : Z) : bool := negb (tr =? 1).
 
@@ -172,6 +186,26 @@ Definition reader_end_model (k : dkind) (sock : bool) (ncb : nat) : list Z * boo
   let x := exec k (init_st cbs, [run_exit_prog sock]) (repeat O (6 + ncb)) in
   (map (fun f => Z.of_nat (count_occ Nat.eq_dec (c_ran (fst x)) f)) cbs, c_done (fst x), c_cancelled (fst x)).
 
+(* stopping the server: the model (Stop.v) with nstop Stop calls and the Serve exit over nconn peers; the first
+   Stop call takes the table, then round robin, long enough for everything to happen.  The shape of
+   Session.shutdown is the one found in the current source (Gen/WakeSets.v udp_shutdown_plain). *)
+Definition stop_model (nstop nconn ncb : nat) : list Z * bool :=
+  let v := if udp_shutdown_plain then ShutLib else ShutGuarded in
+  let ts := server_threads nstop [] [] in
+  let x := sexec v (s_init (seq 0 nconn) (fun _ => seq 0 ncb), ts)
+                 ([0; 0]%nat ++ rr (List.length ts) (2 + nconn * (4 + ncb))) in
+  (flat_map (fun p => map (fun f => Z.of_nat (count_occ Nat.eq_dec (c_ran (s_peer (fst x) p)) f)) (seq 0 ncb)) (seq 0 nconn),
+   forallb (peer_done (fst x)) (seq 0 nconn)).
+
+(* housekeeping: the lock model (Table.v) with the walk(s) of the scenario over the one pending entry, the clean-up
+   of the waiting call and a call made afterwards, round robin; the walk is the one found in the current source
+   (Gen/WakeSets.v mid_walk_unlocks): (every walk returned, the call returned, the later call returned) *)
+Definition tick_model (mode : Z) : bool * bool * bool :=
+  let n := if mode =? 3 then 2%nat else 1%nat in
+  let ts := tick_sys mid_walk_unlocks (negb (mode =? 0)) n in
+  let x := texec (t_init, ts) (rr (List.length ts) (S (tmeasure ts))) in
+  (forallb is_nil (firstn n (snd x)), is_nil (nth n (snd x) [TRLock]), is_nil (nth (S n) (snd x) [TRLock])).
+
 Definition agrees (c : case) : bool :=
   match c with
   | Op tr op pt peer trig0 o_ret o_err =>
@@ -199,6 +233,14 @@ Definition agrees (c : case) : bool :=
   | ReaderEnd tr sock _ _ ncb o_cb o_done o_ctx o_ops o_late =>
       let '(cb, dn, cn) := reader_end_model (kind_of tr) sock (Z.to_nat ncb) in
       zlist_eqb o_cb cb && Bool.eqb o_done dn && Bool.eqb o_ctx cn && o_ops && o_late
+  | StopRace who nstop npeers ncb nconn o_cb o_done o_closers o_panic o_serve =>
+      let '(cb, dn) := stop_model (Z.to_nat nstop) (Z.to_nat nconn) (Z.to_nat ncb) in
+      (npeers + (if who =? 0 then 1 else 0) <=? nconn) &&
+      zlist_eqb o_cb cb && Bool.eqb o_done dn && negb o_panic && o_closers && o_serve
+  | Tick _ _ mode trig o_tick o_ret o_err o_late =>
+      let '(m_tick, m_ret, m_late) := tick_model mode in
+      Bool.eqb o_tick m_tick && Bool.eqb o_ret m_ret && Bool.eqb o_late m_late &&
+      (negb o_ret || err_agrees trig o_err)
   end.
 
 (* the property on the OBSERVED output (Spec only) *)
@@ -210,6 +252,8 @@ Definition pclass (c : case) : N :=
   | StopRun _ _ _ _ o_cb o_done o_closers o_panic o_ops o_serve => close_class o_cb o_done o_closers o_panic o_ops o_serve
   | Stall _ _ trig _ _ o_cb o_done o_closers o_panic o_op o_err => stall_class trig o_cb o_done o_closers o_panic o_op o_err
   | ReaderEnd _ _ cause _ _ o_cb o_done o_ctx o_ops o_late => reader_end_class cause o_cb o_done o_ctx o_ops o_late
+  | StopRace _ _ _ _ _ o_cb o_done o_closers o_panic o_serve => stop_race_class o_cb o_done o_closers o_panic o_serve
+  | Tick _ _ _ trig _ o_ret o_err o_late => tick_class trig o_ret o_err o_late
   end.
 
 Definition mismatches (cs : list case) : list N := bad_indices (fun c => negb (agrees c)) cs.
